@@ -257,6 +257,8 @@ func (c *Compiler) getDeviations(mod string) []string {
 			devs = append(devs, d)
 		}
 	}
+	// (the same list on every run)
+	sort.Strings(devs)
 	return devs
 }
 
@@ -555,6 +557,8 @@ func (c *Compiler) getEnabledFeaturesForPrefix(name string) []string {
 				strings.TrimPrefix(featName, prefix))
 		}
 	}
+	// (the same list on every run)
+	sort.Strings(features)
 	return features
 }
 
